@@ -72,6 +72,21 @@ def user_thread_cases(tier, seed):
                 i += 1
 
 
+def user_thread_prelock_cases(tier, seed):
+    """As above, but the slow user thread loses the CPU for 60-90 ms right before every lock acquisition inside the SDK's state module
+    (between two critical sections of one create_checkpoint call), long enough for the other thread's records to be sent and accepted
+    in between; the call that then carries the slow thread's record stays in flight for 0.4 s and is refused."""
+    i = 0
+    for T, N in ((2, 10), (3, 8)):
+        for k in range(3, 17 if tier == "quick" else 24):
+            for sl in ((0.06,) if tier == "quick" else (0.04, 0.06, 0.09)):
+                yield {"label": "user-threads-one-preempted-before-locks", "prog_seed": 23800 + i, "pattern": {"p": "plain"}, "max_inv": 1, "latency_ms": (50, 70),
+                       "prog": {"body": [{"k": "step", "val": 0}, {"k": "uthreads", "threads": T, "n": N, "op": "step"}, {"k": "step", "val": "after"}]},
+                       "faults": [{"match": {"op": "checkpoint", "n": k}, "err": ERR, "when": "before", "delay_ms": 400}],
+                       "opts": {"hang_s": 5.0, "perturb": {"p": 0.0, "seed": i, "files": ["state.py"], "before_lock": {"thread_re": r"^ut-0$", "sleep": sl}}}}
+                i += 1
+
+
 def after_return_cases(tier, seed):
     """A branch abandoned by an early-completing map/parallel is still inside a step function when the handler returns, and goes on
     afterwards in the same (warm) process: whatever it does then, no durable call may hand it a result the backend never accepted."""
@@ -128,6 +143,7 @@ def explicit_all(tier, seed):
     yield from after_return_cases(tier, seed)
     yield from repeated_record_cases(tier, seed)
     yield from user_thread_cases(tier, seed)
+    yield from user_thread_prelock_cases(tier, seed)
 
 
 SPEC = Spec(
